@@ -16,9 +16,10 @@ def sh(cmd, cwd=None, timeout=900):
         return 124, "timeout"
 meta = {"id": pid + x, "property": pid, "source": "independent sub-agent given only the property text and a scratch worktree", "confirmed_at": time.strftime("%Y-%m-%dT%H:%M:%S")}
 subprocess.run("git -C /repo worktree remove --force %s 2>/dev/null; rm -rf %s" % (wt, wt), shell=True)
-rc, out = sh("git -C /repo worktree add --detach %s HEAD" % wt)
+base = sys.argv[3] if len(sys.argv) > 3 else "HEAD"
+rc, out = sh("git -C /repo worktree add --detach %s %s" % (wt, base))
 try:
-    head = subprocess.check_output("git -C /repo rev-parse --short HEAD", shell=True, text=True).strip()
+    head = subprocess.check_output("git -C %s rev-parse --short HEAD" % wt, shell=True, text=True).strip()
     meta["base_commit"] = head
     rc0, out0 = sh("bash %s/run_demo.sh %s" % (src, wt), cwd=src, timeout=600)
     meta["demo_on_unchanged_tree_exit"] = rc0
